@@ -19,16 +19,21 @@ Proof. intros m. unfold recv_hb. reflexivity. Qed.
 Lemma cm_ok_react : forall m, recv_cm 0 m = set_cmin None m.
 Proof. intros m. reflexivity. Qed.
 
+Definition a_core' (hbin cmin : option Z) (a : av) : av :=
+  mkA (a_live a) (a_ph a) (a_rejoin a) (a_ck a) (a_hb a) (a_ib a) hbin cmin (a_st a) (a_G0 a)
+      (a_idz a) (a_id_e a) (a_id_p a) (a_id_jp a) (a_id_sp a) (a_genz a) (a_gen_eq a) (a_gen_le a)
+      (a_fz a) (a_f_e a) (a_f_p a) (a_f_jp a) (a_f_sp a) (a_f_id a) (a_gz a) (a_g_eq a) (a_g_le a).
+
 Lemma settled_live : forall c m, settled c m = true -> m_live m = true ->
   m_ph m = PIdle /\ m_rejoin m = false /\ m_hb m = true /\ m_ck m = CkOk /\ m_inbox m = None
   /\ (m_id m =? 0) = false /\ memb (m_id m) (ids (c_ents c)) = true /\ (m_gen m =? c_gen c) = true
   /\ ok_or_none (m_hbin m) = true /\ ok_or_none (m_cmin m) = true.
 Proof.
-  intros c m H L. unfold settled in H. rewrite L in H. simpl in H. btrue.
+  intros c m H L. unfold settled, settled_a, absm in H. simpl in H. rewrite L in H. simpl in H. btrue.
   repeat split; try assumption.
   - destruct (m_ph m); simpl in *; congruence.
   - destruct (m_ck m); simpl in *; congruence.
-  - destruct (m_inbox m); simpl in *; congruence.
+  - unfold ib_of in *. destruct (m_inbox m) as [[?|?]|]; simpl in *; congruence.
 Qed.
 
 Lemma hb_code_settled : forall c m, (c_st c = CStable \/ c_st c = CEmpty) -> settled c m = true -> m_live m = true ->
@@ -39,9 +44,9 @@ Proof.
   destruct Hst as [-> | ->]; split; reflexivity.
 Qed.
 
-Lemma bound_ext : forall m m' x, m_live m' = m_live m -> m_id m' = m_id m -> m_inbox m' = m_inbox m ->
-  m_ph m' = m_ph m -> m_wait m' = m_wait m -> bound m' x = bound m x.
-Proof. intros m m' x A B C D E. unfold bound, waiting_join. rewrite A, B, C, D, E. reflexivity. Qed.
+Lemma bound_ext : forall m m' x, m_live m' = m_live m -> m_id m' = m_id m ->
+  m_ph m' = m_ph m -> m_focus m' = m_focus m -> bound m' x = bound m x.
+Proof. intros m m' x A B D E. unfold bound. rewrite A, B, D, E. reflexivity. Qed.
 
 Lemma orphan_updm : forall i f ms e,
   (forall m x, bound (f m) x = bound m x) -> orphan (updm i f ms) e = orphan ms e.
@@ -53,35 +58,72 @@ Qed.
 Lemma inv_names : forall s, inv_b s = true -> NoDup (map m_name (s_ms s)).
 Proof. intros s H. unfold inv_b in H. btrue. apply nodupb_NoDup. assumption. Qed.
 
-Ltac dbool :=
-  repeat match goal with
-         | |- context [?a =? ?b] => let E := fresh "E" in destruct (a =? b) eqn:E
-         | H : context [?a =? ?b] |- _ => let E := fresh "E" in destruct (a =? b) eqn:E
-         end.
-
-(* the four no-op updates keep a settled member well-formed and coherent *)
-Lemma wf_m_noop : forall m, wf_m m = true -> m_live m = true -> m_ph m = PIdle -> m_inbox m = None ->
-  m_hb m = true -> m_ck m = CkOk -> (m_id m =? 0) = false ->
-  wf_m (set_hbin (Some 0%Z) m) = true /\ wf_m (set_hbin None m) = true
-  /\ wf_m (set_cmin (Some 0%Z) m) = true /\ wf_m (set_cmin None m) = true.
+(* the predicates read only these fields besides the two reply slots *)
+Lemma absm_slots : forall c m m', m_live m' = m_live m -> m_id m' = m_id m -> m_gen m' = m_gen m -> m_ph m' = m_ph m ->
+  m_rejoin m' = m_rejoin m -> m_ck m' = m_ck m -> m_hb m' = m_hb m -> m_focus m' = m_focus m -> m_inbox m' = m_inbox m ->
+  absm c m' = a_core' (m_hbin m') (m_cmin m') (absm c m).
 Proof.
-  intros m H L P I Hb Ck Id. destruct m as [nm lv id gn ph rj ck hb wt ib hbi cmi]. simpl in *. subst.
-  unfold wf_m, can_commit in *. simpl in *. rewrite Id in *. simpl in *.
-  destruct rj, (gn =? 0), hbi as [z|], cmi as [z'|]; simpl in *; btrue; repeat split;
-    repeat (apply andb_true_iff; split); try assumption; try reflexivity; try discriminate.
+  intros c m m' A B C D E F G H I. unfold absm, a_core', focus_of, rgen_of, ib_of. rewrite A, B, C, D, E, F, G, H, I. reflexivity.
 Qed.
 
-Lemma coh_ext : forall c m m', m_live m' = m_live m -> m_ph m' = m_ph m -> m_inbox m' = m_inbox m ->
-  m_wait m' = m_wait m -> m_id m' = m_id m -> m_gen m' = m_gen m -> coh c m' = coh c m.
-Proof. intros c m m' A B C D E F. unfold coh, waiting_join, waiting_sync. rewrite A, B, C, D, E, F. reflexivity. Qed.
-
-Lemma settled_noop : forall c m, settled c m = true -> m_live m = true ->
-  settled c (set_hbin (Some 0%Z) m) = true /\ settled c (set_hbin None m) = true
-  /\ settled c (set_cmin (Some 0%Z) m) = true /\ settled c (set_cmin None m) = true.
+(* the four no-op updates keep a settled member settled, well-formed and coherent *)
+Lemma noop_keeps : forall a, a_live a = true -> settled_a a = true -> wf_a a = true -> coh_a a = true ->
+  forall hb' cm', (hb' = a_hbin a \/ hb' = None \/ hb' = Some 0%Z) -> (cm' = a_cmin a \/ cm' = None \/ cm' = Some 0%Z) ->
+  settled_a (a_core' hb' cm' a) = true /\ wf_a (a_core' hb' cm' a) = true /\ coh_a (a_core' hb' cm' a) = true.
 Proof.
-  intros c m H L. destruct m as [nm lv id gn ph rj ck hb wt ib hbi cmi]. unfold settled in *. simpl in *. subst.
-  simpl in *. btrue. subst. rewrite H, H6, H5, H4, H3, H2. simpl.
-  destruct hbi, cmi; simpl in *; rewrite ?H1, ?H0; repeat split; reflexivity.
+  intros a L S W C hb' cm' Hh Hc.
+  destruct a as [live ph rejoin ck hb ib hbin cmin st G0 idz id_e id_p id_jp id_sp genz gen_eq gen_le
+                   fz f_e f_p f_jp f_sp f_id gz g_eq g_le].
+  unfold settled_a, wf_a, coh_a, a_core', a_can_commit, a_waiting_join, a_waiting_sync in *. simpl in *. subst live. simpl in *.
+  apply andb_true_iff in S. destruct S as [S Scm]. apply andb_true_iff in S. destruct S as [S Shb].
+  apply andb_true_iff in S. destruct S as [S Sge]. apply andb_true_iff in S. destruct S as [S Sie].
+  apply andb_true_iff in S. destruct S as [S Siz]. apply andb_true_iff in S. destruct S as [S Sib].
+  apply andb_true_iff in S. destruct S as [S Sck]. apply andb_true_iff in S. destruct S as [S Sh].
+  apply andb_true_iff in S. destruct S as [Sph Srj].
+  destruct ph; try discriminate. destruct ib; try discriminate. destruct ck; try discriminate.
+  destruct rejoin; try discriminate. destruct hb; try discriminate. destruct idz; try discriminate.
+  destruct id_e; try discriminate. destruct gen_eq; try discriminate. simpl in *.
+  assert (Hh' : ok_or_none hb' = true /\ opt_in hb' probe_codes = true).
+  { destruct Hh as [->|[->| ->]]; [|split; reflexivity|split; reflexivity]. split; [exact Shb|].
+    destruct hbin as [z|]; [|reflexivity]. simpl in Shb. apply Z.eqb_eq in Shb. subst z. reflexivity. }
+  assert (Hc' : ok_or_none cm' = true /\ opt_in cm' probe_codes = true).
+  { destruct Hc as [->|[->| ->]]; [|split; reflexivity|split; reflexivity]. split; [exact Scm|].
+    destruct cmin as [z|]; [|reflexivity]. simpl in Scm. apply Z.eqb_eq in Scm. subst z. reflexivity. }
+  destruct Hh' as [H1 H2]. destruct Hc' as [H3 H4]. rewrite H1, H2, H3, H4.
+  repeat (apply andb_true_iff in W; destruct W as [W ?]).
+  repeat (apply andb_true_iff in C; destruct C as [C ?]).
+  destruct genz; simpl in *; try discriminate.
+  repeat split; try reflexivity.
+  repeat (apply andb_true_iff; split); try reflexivity; try assumption.
+  rewrite orb_false_r in C. exact C.
+Qed.
+
+Lemma noop_member : forall c m m', m_live m = true -> settled c m = true -> wf_m c m = true -> coh c m = true ->
+  m_live m' = m_live m -> m_id m' = m_id m -> m_gen m' = m_gen m -> m_ph m' = m_ph m ->
+  m_rejoin m' = m_rejoin m -> m_ck m' = m_ck m -> m_hb m' = m_hb m -> m_focus m' = m_focus m -> m_inbox m' = m_inbox m ->
+  (m_hbin m' = m_hbin m \/ m_hbin m' = None \/ m_hbin m' = Some 0%Z) ->
+  (m_cmin m' = m_cmin m \/ m_cmin m' = None \/ m_cmin m' = Some 0%Z) ->
+  settled c m' = true /\ wf_m c m' = true /\ coh c m' = true.
+Proof.
+  intros c m m' L S W C A1 A2 A3 A4 A5 A6 A7 A8 A9 Hh Hc.
+  unfold settled, wf_m, coh. rewrite (absm_slots c m m' A1 A2 A3 A4 A5 A6 A7 A8 A9).
+  apply noop_keeps; try assumption.
+Qed.
+
+Definition same_ids (m m' : member) : Prop :=
+  m_live m' = m_live m /\ m_id m' = m_id m /\ m_ph m' = m_ph m /\ m_focus m' = m_focus m.
+
+Lemma disjoint_ext : forall a a' b b', same_ids a a' -> same_ids b b' -> disjoint_m a' b' = disjoint_m a b.
+Proof.
+  intros a a' b b' (A1 & A2 & A3 & A4) (B1 & B2 & B3 & B4). unfold disjoint_m, bound, focus_of.
+  rewrite A1, A2, A3, A4, B1, B2, B3, B4. reflexivity.
+Qed.
+
+Lemma pairwise_map_ext : forall (g : member -> member) ms, (forall m, same_ids m (g m)) ->
+  pairwise disjoint_m (map g ms) = pairwise disjoint_m ms.
+Proof.
+  intros g ms Hg. induction ms as [|a r IH]; simpl; [reflexivity|]. rewrite IH. f_equal.
+  clear IH. induction r as [|b r IH]; simpl; [reflexivity|]. rewrite IH. f_equal. apply disjoint_ext; apply Hg.
 Qed.
 
 Definition is_send_join (l : label) : bool := match l with LSendJoin _ _ _ => true | _ => false end.
@@ -96,24 +138,30 @@ Proof.
   apply andb_true_iff in Hc. destruct Hc as [Hst Hset].
   assert (Hst' : c_st c = CStable \/ c_st c = CEmpty).
   { apply orb_true_iff in Hst. destruct Hst as [E|E]; destruct (c_st c); simpl in E; try discriminate; auto. }
-  unfold inv_b in Hinv. simpl in Hinv. apply andb_true_iff in Hinv. destruct Hinv as [Hinv Hnd].
+  unfold inv_b in Hinv. simpl in Hinv. apply andb_true_iff in Hinv. destruct Hinv as [Hinv Hpw].
+  apply andb_true_iff in Hinv. destruct Hinv as [Hinv Hnd].
   apply andb_true_iff in Hinv. destruct Hinv as [Hinv Hcoh]. apply andb_true_iff in Hinv. destruct Hinv as [Hwc Hwm].
   assert (Hget : forall i m, getm i ms = Some m -> m_live m = true ->
-            settled c m = true /\ wf_m m = true /\ coh c m = true).
+            settled c m = true /\ wf_m c m = true /\ coh c m = true).
   { intros i m G L. apply getm_In in G. destruct G as [Hin _]. rewrite forallb_forall in Hset, Hwm, Hcoh. auto. }
   (* the generic conclusion for an update of member [i] by a function that keeps everything the predicates read *)
   assert (Hgen : forall i m f, getm i ms = Some m -> m_live m = true ->
-            (forall m0, m_name (f m0) = m_name m0) -> (forall m0 x, bound (f m0) x = bound m0 x) ->
-            settled c (f m) = true -> wf_m (f m) = true -> coh c (f m) = true ->
+            (forall m0, m_name (f m0) = m_name m0) -> (forall m0, same_ids m0 (f m0)) ->
+            settled c (f m) = true -> wf_m c (f m) = true -> coh c (f m) = true ->
             converged_b (mkS c (updm i f ms)) = true /\ inv_b (mkS c (updm i f ms)) = true).
-  { intros i m f G L Hn Hb Hs' Hw' Hc'. split.
+  { intros i m f G L Hn Hsame Hs' Hw' Hc'.
+    assert (Hb : forall m0 x, bound (f m0) x = bound m0 x).
+    { intros m0 x. destruct (Hsame m0) as (B1 & B2 & B3 & B4). apply bound_ext; assumption. }
+    split.
     - unfold converged_b. simpl. rewrite Hst. simpl. apply andb_true_iff. split.
       + apply (forallb_updm _ i f ms m ND G Hset Hs').
       + rewrite forallb_forall in Hents |- *. intros e He. rewrite (orphan_updm i f ms e Hb). apply Hents. exact He.
     - unfold inv_b. simpl. rewrite Hwc. simpl. repeat (apply andb_true_iff; split).
       + apply (forallb_updm _ i f ms m ND G Hwm Hw').
       + apply (forallb_updm _ i f ms m ND G Hcoh Hc').
-      + rewrite (updm_names i f ms Hn). exact Hnd. }
+      + rewrite (updm_names i f ms Hn). exact Hnd.
+      + unfold updm. rewrite pairwise_map_ext; [exact Hpw|]. intros m0. destruct (m_name m0 =? i); [apply Hsame|].
+        repeat split; reflexivity. }
   destruct l as [i|i v4 y|i|i|i|i|i|i|x rt]; simpl in Hs.
   - (* LFind *) destruct (getm i ms) as [m|] eqn:G; [|discriminate].
     destruct (m_live m) eqn:L; simpl in Hs; [|discriminate].
@@ -134,13 +182,10 @@ Proof.
     destruct (hb_code_settled c m Hst' S L) as [Hcode _].
     destruct (m_hb m && is_none (m_hbin m) && ck_known (m_ck m)) eqn:Gd; [|discriminate].
     inversion Hs; subst s'. rewrite Hcode.
-    destruct (wf_m_noop m W L Hp Hib Hhb Hck Hid) as (W1 & _). destruct (settled_noop c m S L) as (S1 & _).
-    assert (C1 : coh c (set_hbin (Some 0%Z) m) = true) by (rewrite (coh_ext c m (set_hbin (Some 0%Z) m)); try reflexivity; exact C).
-    destruct (Hgen i m (set_hbin (Some 0%Z)) G L (fun _ => eq_refl) (fun _ _ => eq_refl) S1 W1 C1) as [A B].
+    destruct (noop_member c m (set_hbin (Some 0%Z) m) L S W C) as (S1 & W1 & C1); try reflexivity; auto.
+    destruct (Hgen i m (set_hbin (Some 0%Z)) G L (fun _ => eq_refl) (fun _ => conj eq_refl (conj eq_refl (conj eq_refl eq_refl))) S1 W1 C1) as [A B].
     repeat split; try assumption.
-    unfold noop_b, with_m. simpl. rewrite G, Hcode. unfold hb_silent. rewrite hb_ok_react. simpl. rewrite Hid.
-    destruct m; simpl. unfold member_eqb. simpl. rewrite !Nat.eqb_refl. simpl.
-    destruct m_live, m_ph, m_rejoin, m_ck, m_hb, m_inbox as [[?|?]|], m_cmin; simpl; try rewrite ?Z.eqb_refl, ?Nat.eqb_refl; reflexivity.
+    unfold noop_b, with_m. simpl. rewrite G, Hcode. unfold hb_silent_a, absm. simpl. rewrite Hid. reflexivity.
   - (* LHbRecv *) destruct (getm i ms) as [m|] eqn:G; [|discriminate].
     destruct (m_live m) eqn:L; [|discriminate].
     destruct (m_hbin m) as [code|] eqn:Hh; [|discriminate].
@@ -150,42 +195,33 @@ Proof.
     assert (Hf : forall m0, m_name (recv_hb 0 m0) = m_name m0).
     { intros m0. rewrite hb_ok_react. destruct (m_id m0 =? 0); reflexivity. }
     assert (Hm : recv_hb 0 m = set_hbin None m) by (rewrite hb_ok_react, Hid; reflexivity).
-    destruct (wf_m_noop m W L Hp Hib Hhb Hck Hid) as (_ & W1 & _). destruct (settled_noop c m S L) as (_ & S1 & _).
-    assert (C1 : coh c (recv_hb 0 m) = true) by (rewrite Hm, (coh_ext c m (set_hbin None m)); try reflexivity; exact C).
-    assert (Hb : forall m0 x, bound (recv_hb 0 m0) x = bound m0 x).
-    { intros m0 x. rewrite hb_ok_react. destruct (m_id m0 =? 0); apply bound_ext; reflexivity. }
-    rewrite <- Hm in S1, W1.
+    destruct (noop_member c m (set_hbin None m) L S W C) as (S1 & W1 & C1); try reflexivity; auto.
+    assert (Hb : forall m0, same_ids m0 (recv_hb 0 m0)).
+    { intros m0. rewrite hb_ok_react. destruct (m_id m0 =? 0); repeat split; reflexivity. }
+    rewrite <- Hm in S1, W1, C1.
     destruct (Hgen i m (recv_hb 0) G L Hf Hb S1 W1 C1) as [A B].
     repeat split; try assumption.
-    unfold noop_b, with_m. simpl. rewrite G, Hh. unfold hb_silent. rewrite Hm.
-    destruct m; simpl. unfold member_eqb. simpl. rewrite !Nat.eqb_refl. simpl.
-    destruct m_live, m_ph, m_rejoin, m_ck, m_hb, m_inbox as [[?|?]|], m_cmin; simpl; try rewrite ?Z.eqb_refl, ?Nat.eqb_refl; reflexivity.
+    unfold noop_b, with_m. simpl. rewrite G, Hh. unfold hb_silent_a, absm. simpl. rewrite Hid. reflexivity.
   - (* LCmSend *) destruct (getm i ms) as [m|] eqn:G; [|discriminate].
     destruct (m_live m) eqn:L; simpl in Hs; [|discriminate].
     destruct (Hget i m G L) as (S & W & C). destruct (settled_live c m S L) as (Hp & Hr & Hhb & Hck & Hib & Hid & _).
     destruct (hb_code_settled c m Hst' S L) as [_ Hcode].
     match type of Hs with (if ?g then _ else _) = _ => destruct g eqn:Gd; [|discriminate] end.
     inversion Hs; subst s'. rewrite Hcode.
-    destruct (wf_m_noop m W L Hp Hib Hhb Hck Hid) as (_ & _ & W1 & _). destruct (settled_noop c m S L) as (_ & _ & S1 & _).
-    assert (C1 : coh c (set_cmin (Some 0%Z) m) = true) by (rewrite (coh_ext c m (set_cmin (Some 0%Z) m)); try reflexivity; exact C).
-    destruct (Hgen i m (set_cmin (Some 0%Z)) G L (fun _ => eq_refl) (fun _ _ => eq_refl) S1 W1 C1) as [A B].
+    destruct (noop_member c m (set_cmin (Some 0%Z) m) L S W C) as (S1 & W1 & C1); try reflexivity; auto.
+    destruct (Hgen i m (set_cmin (Some 0%Z)) G L (fun _ => eq_refl) (fun _ => conj eq_refl (conj eq_refl (conj eq_refl eq_refl))) S1 W1 C1) as [A B].
     repeat split; try assumption.
-    unfold noop_b, with_m. simpl. rewrite G, Hcode. unfold cm_silent. rewrite cm_ok_react.
-    destruct m; simpl. unfold member_eqb. simpl. rewrite !Nat.eqb_refl. simpl.
-    destruct m_live, m_ph, m_rejoin, m_ck, m_hb, m_inbox as [[?|?]|], m_hbin; simpl; try rewrite ?Z.eqb_refl, ?Nat.eqb_refl; reflexivity.
+    unfold noop_b, with_m. simpl. rewrite G, Hcode. reflexivity.
   - (* LCmRecv *) destruct (getm i ms) as [m|] eqn:G; [|discriminate].
     destruct (m_live m) eqn:L; [|discriminate].
     destruct (m_cmin m) as [code|] eqn:Hh; [|discriminate].
     destruct (Hget i m G L) as (S & W & C). destruct (settled_live c m S L) as (Hp & Hr & Hhb & Hck & Hib & Hid & _ & _ & _ & Hok).
     rewrite Hh in Hok. simpl in Hok. apply Z.eqb_eq in Hok. subst code.
     inversion Hs; subst s'.
-    destruct (wf_m_noop m W L Hp Hib Hhb Hck Hid) as (_ & _ & _ & W1). destruct (settled_noop c m S L) as (_ & _ & _ & S1).
-    assert (C1 : coh c (recv_cm 0 m) = true) by (rewrite (coh_ext c m (recv_cm 0 m)); try reflexivity; exact C).
-    destruct (Hgen i m (recv_cm 0) G L (fun _ => eq_refl) (fun _ _ => eq_refl) S1 W1 C1) as [A B].
+    destruct (noop_member c m (recv_cm 0 m) L S W C) as (S1 & W1 & C1); try reflexivity; auto.
+    destruct (Hgen i m (recv_cm 0) G L (fun _ => eq_refl) (fun _ => conj eq_refl (conj eq_refl (conj eq_refl eq_refl))) S1 W1 C1) as [A B].
     repeat split; try assumption.
-    unfold noop_b, with_m. simpl. rewrite G, Hh. unfold cm_silent. rewrite cm_ok_react.
-    destruct m; simpl. unfold member_eqb. simpl. rewrite !Nat.eqb_refl. simpl.
-    destruct m_live, m_ph, m_rejoin, m_ck, m_hb, m_inbox as [[?|?]|], m_hbin; simpl; try rewrite ?Z.eqb_refl, ?Nat.eqb_refl; reflexivity.
+    unfold noop_b, with_m. simpl. rewrite G, Hh. reflexivity.
   - (* LExpire *) destruct (find_ent x (c_ents c)) as [e|] eqn:F; [|discriminate].
     unfold find_ent in F. apply find_some in F. destruct F as [Hin _].
     rewrite forallb_forall in Hents. specialize (Hents e Hin). btrue. rewrite H in Hs. simpl in Hs. discriminate.
